@@ -78,6 +78,7 @@ func iterCheckPlain(w *World, model *plainModel, nkeys int) {
 	it := w.DB.NewIterator(&utils.Options{IsAsc: true, OnlyUseKey: true})
 	defer it.Close()
 	seen := map[string][]byte{}
+	errored := map[string]bool{} // keys whose value could not be read (reported as read_error)
 	for it.Rewind(); it.Valid(); it.Next() {
 		item := it.Item()
 		e := item.Entry()
@@ -92,7 +93,8 @@ func iterCheckPlain(w *World, model *plainModel, nkeys int) {
 		}
 		val, err := vc.ValueCopy(nil)
 		if err != nil {
-			w.Res.Violate(w.step, "read_error", readErrSig(w, "Iterator.ValueCopy", err, []byte{byte(kv.CFDefault)}, e.Key), "ValueCopy(%q): %v", e.Key, err)
+			w.Res.Violate(w.step, "read_error", readErrSig(w, "Iterator.ValueCopy", err, []byte{byte(kv.CFDefault)}, e.Key), "ValueCopy(%q): %v; copies: %s", e.Key, err, DescribeCopies(w, kv.CFDefault, e.Key))
+			errored[string(e.Key)] = true
 			continue
 		}
 		if _, dup := seen[string(e.Key)]; !dup {
@@ -108,6 +110,9 @@ func iterCheckPlain(w *World, model *plainModel, nkeys int) {
 		got, ok := seen[keyNames[ki]]
 		if ok && bytes.Equal(got, exp.val) {
 			continue
+		}
+		if !ok && errored[keyNames[ki]] {
+			continue // the key was yielded; its unreadable value is already reported
 		}
 		// where the expected and the returned copy are stored (same facts as point reads)
 		_, sig := diagnose(w, kv.CFDefault, []byte(keyNames[ki]), exp, ok, got)
